@@ -224,6 +224,8 @@ impl Pager {
         if !existed || file.metadata()?.len() == 0 {
             let meta = Meta::new();
             let bitmap = Bitmap::new();
+            #[cfg(nervusdb_verif)]
+            crate::verif_io::step("set_len", &path, (PAGE_SIZE * 2) as u64, 0)?;
             file.set_len((PAGE_SIZE * 2) as u64)?;
 
             let mut pager = Self {
@@ -438,12 +440,23 @@ impl Pager {
             return Err(Error::PageNotAllocated(page_id.as_u64()));
         }
 
+        #[cfg(nervusdb_verif)]
+        crate::verif_io::step(
+            "page_write",
+            &self.path,
+            page_id.as_u64() * PAGE_SIZE as u64,
+            PAGE_SIZE as u64,
+        )?;
         write_page_raw(&self.file, page_id, page)?;
         Ok(())
     }
 
     pub fn sync(&mut self) -> Result<()> {
+        #[cfg(nervusdb_verif)]
+        crate::verif_io::step("pager_sync", &self.path, 0, 0)?;
         self.file.sync_data()?;
+        #[cfg(nervusdb_verif)]
+        crate::verif_io::synced(&self.path);
         Ok(())
     }
 
@@ -461,6 +474,8 @@ impl Pager {
         let required_bytes = (page_id.as_u64() + 1) * PAGE_SIZE as u64;
         let current_len = self.file.metadata()?.len();
         if current_len < required_bytes {
+            #[cfg(nervusdb_verif)]
+            crate::verif_io::step("set_len", &self.path, required_bytes, 0)?;
             self.file.set_len(required_bytes)?;
         }
 
@@ -476,11 +491,19 @@ impl Pager {
 
     fn flush_meta_and_bitmap(&mut self) -> Result<()> {
         let meta_page = self.meta.encode_page();
+        #[cfg(nervusdb_verif)]
+        crate::verif_io::step("page_write", &self.path, 0, PAGE_SIZE as u64)?;
         write_page_raw(&self.file, META_PAGE_ID, &meta_page)?;
+        #[cfg(nervusdb_verif)]
+        crate::verif_io::step("page_write", &self.path, PAGE_SIZE as u64, PAGE_SIZE as u64)?;
         write_page_raw(&self.file, BITMAP_PAGE_ID, &self.bitmap.data)?;
         // Ensure meta + bitmap durability. WAL replay can recover data pages, but
         // durable metadata reduces recovery work and avoids pathological re-scan.
+        #[cfg(nervusdb_verif)]
+        crate::verif_io::step("pager_sync", &self.path, 0, 0)?;
         self.file.sync_data()?;
+        #[cfg(nervusdb_verif)]
+        crate::verif_io::synced(&self.path);
         Ok(())
     }
 }
